@@ -216,7 +216,10 @@ func (sta *State) UsedRandomCleaner() {
 		time.Sleep(replayCacheAgeLimit)
 		sta.usedRandomM.Lock()
 		for key, t := range sta.UsedRandom {
-			if time.Unix(t, 0).Before(sta.WorldState.Now().Add(timestampTolerance)) {
+			// an entry may only be forgotten once no packet first seen at t can still be inside the
+			// acceptance window: its timestamp may lead our clock by up to one tolerance at t and
+			// stays acceptable for one more tolerance after that
+			if time.Unix(t, 0).Before(sta.WorldState.Now().Add(-2 * timestampTolerance)) {
 				delete(sta.UsedRandom, key)
 			}
 		}
